@@ -69,3 +69,24 @@ func init() {
 	libCalls["encoding/json.Unmarshal"] = jsonUnmarshal
 	libCalls["errors.Join"] = errorsJoin
 }
+
+// ---------- goroutines and channels (abstraction) ----------
+
+func (x *Exec) chanAssumption() {
+	x.assumed["goroutines/channels abstracted: a goroutine runs to completion where it is spawned (one schedule), sends are dropped, every receive/select yields an arbitrary value and an arbitrary ready case"] = true
+}
+
+// selectInstr: the chosen case is arbitrary (any case for a blocking select, possibly
+// none for one with a default), received values are arbitrary.
+func (x *Exec) selectInstr(fr *Frame, st *State, v *ssa.Select) {
+	res := x.freshVal(fr.prefix+"sel", v.Type(), st)
+	if len(res.Tuple) > 0 {
+		idx := res.Tuple[0].T
+		lo := int64(0)
+		if !v.Blocking {
+			lo = -1
+		}
+		x.assumeUnder(st.Guard, mkAnd(x.iLe(x.S.IdxLit(lo), idx), x.iLt(idx, x.S.IdxLit(int64(len(v.States))))))
+	}
+	fr.vals[v] = res
+}
